@@ -23,7 +23,9 @@ def rnd_scalar(r):
 # bodies that no longer parse (an outdated or damaged store): cut inside loops, blocks, calls, templates, lists
 BROKEN_BODY = ["while 1 { if 1 { break } if 1 { break }", "if 1 { 2 } else {", "[1, 2", "func g() { 1 } g(", "`a{", "1 ? 2 : ", "x = (", "while 1 { break } }",
                "i=0; while i<3 { i=i+1; if i==2 { continue }", "a+", "x +", "1; 2; (", "if a { return 1 }; while a { a = a - 1; if a { break }", "d6 + 2d", "{'k': 1, ", "a[1",
-               "while a { while 1 { if a { break } if 1 { break }", "`{% if 1 { 2 %}`", "f(1,", "return"]
+               "while a { while 1 { if a { break } if 1 { break }", "`{% if 1 { 2 %}`", "f(1,", "return",
+               # texts that parse but leave NO value on the stack
+               ";", " ; ; ", "// d20 + 5", "// c\n", ";// x", "#c"]
 
 
 def well_typed(r, depth):
